@@ -153,3 +153,39 @@ Proof.
   destruct (fs_how s); cbn [after]; [|reflexivity].
   destruct (fs_sink s); cbn [steals]; congruence.
 Qed.
+
+(* ---------------------------------------------------------------------------------------------- *)
+(* C17: thread confinement.
+   The footprint discipline: a call made by thread t reads and writes only the objects t owns (reached from objects t
+   created - covered by the sequential models) plus the library's variables of static storage duration.  If every such
+   variable is thread-local or immutable, a thread's component evolves under every interleaving exactly as it would
+   alone, and two threads never touch a common mutable cell. *)
+Definition static_confined (s : static_var) : bool := sv_thread_local s || sv_const s.
+
+Section Confine.
+  Variable S : Type.            (* everything thread-owned, including that thread's thread_local statics *)
+  Variable E : Type.            (* the immutable statics *)
+  Variable stp : E -> nat -> S -> S.     (* one library call of a thread (the nat names the call) *)
+
+  Definition cstate := nat -> S.
+  Definition cstep (env : E) (st : cstate) (ev : nat * nat) : cstate :=
+    fun t => if Nat.eqb t (fst ev) then stp env (snd ev) (st t) else st t.
+  Definition crun (env : E) (st : cstate) (sched : list (nat * nat)) : cstate := fold_left (cstep env) sched st.
+
+  (* the calls of thread t in a schedule, in order *)
+  Definition calls_of (t : nat) (sched : list (nat * nat)) : list nat :=
+    map snd (filter (fun ev => Nat.eqb t (fst ev)) sched).
+
+  Theorem confined_projection env sched : forall st t,
+    crun env st sched t = fold_left (fun s c => stp env c s) (calls_of t sched) (st t).
+  Proof.
+    induction sched as [|[u c] r IH]; intros st t; [reflexivity|].
+    unfold crun in *. cbn [fold_left]. rewrite IH. unfold calls_of. cbn [filter fst snd]. unfold cstep at 1. cbn [fst snd].
+    destruct (Nat.eqb t u); reflexivity.
+  Qed.
+
+  (* consequence: any two interleavings of the same per-thread call sequences give every thread the same result *)
+  Corollary schedule_independent env st s1 s2 t :
+    calls_of t s1 = calls_of t s2 -> crun env st s1 t = crun env st s2 t.
+  Proof. intros H. rewrite !confined_projection, H. reflexivity. Qed.
+End Confine.
